@@ -77,22 +77,25 @@ def run(ctx):
             else:
                 d1.fail(cons, 'not-normalised', 'the composition returned (%s) is not passed through fn.normalize' % src(comp), f, r)
         # ---- D3
-        one = [n for n in walk_no_nested(f.node) if isinstance(n, ast.If) and src(n.test) == 'N == 1']
+        one = [n for n in walk_no_nested(f.node) if isinstance(n, ast.If) and isinstance(n.test, ast.Compare)
+               and isinstance(n.test.comparators[0], ast.Constant) and n.test.comparators[0].value == 1 and isinstance(n.test.ops[0], ast.Eq)
+               and any(isinstance(b, ast.Return) for b in n.body)]
         if not one:
             d3.fail(cons, 'no-shortcut', 'single-component shortcut missing', f, f.node)
         else:
             b = one[0]
-            asg = [n for n in b.body if isinstance(n, ast.Assign) and src(n.targets[0]) == kind]
             ret = [n for n in b.body if isinstance(n, ast.Return)]
             want = 'Tsat' if kind == 'T' else 'Psat'
-            crit = 'chemical.Tc' if kind == 'T' else 'chemical.Pc'
-            okk = asg and ret and isinstance(ret[0].value, ast.Tuple) and src(ret[0].value.elts[0]) == kind
+            crit = 'Tc' if kind == 'T' else 'Pc'
+            first = src(ret[0].value.elts[0]) if ret and isinstance(ret[0].value, ast.Tuple) else None
+            asg = [n for n in b.body if isinstance(n, ast.Assign) and src(n.targets[0]) == first]
+            okk = bool(asg and ret)
             if okk:
                 v = asg[0].value
                 if isinstance(v, ast.IfExp):
-                    okk = ('chemical.%s(' % want) in src(v.body) and src(v.orelse) == crit
+                    okk = re.search(r'\.%s\(' % want, src(v.body)) is not None and src(v.orelse).endswith('.' + crit)
                 else:
-                    okk = ('chemical.%s(' % want) in src(v)
+                    okk = re.search(r'\.%s\(' % want, src(v)) is not None
             if okk:
                 d3.ok(cons, 'single component: returns %s = chemical.%s(...) (critical value beyond the critical point)' % (kind, want), f, b)
             else:
@@ -102,7 +105,9 @@ def run(ctx):
     # ---- D4
     for cname, rel in (('BubblePoint', BP), ('DewPoint', DP)):
         f = prog.method(cname, '__new__', rel=rel)
-        key = [n for n in walk_no_nested(f.node) if isinstance(n, ast.Assign) and src(n.targets[0]) == 'key']
+        caches = {t.id for n in walk_no_nested(f.node) if isinstance(n, ast.Assign) and src(n.value).endswith('._cached') for t in n.targets if isinstance(t, ast.Name)}
+        knames = {src(n.left) for n in walk_no_nested(f.node) if isinstance(n, ast.Compare) and isinstance(n.ops[0], ast.In) and src(n.comparators[0]) in caches}
+        key = [n for n in walk_no_nested(f.node) if isinstance(n, ast.Assign) and src(n.targets[0]) in knames]
         if not key or not isinstance(key[0].value, ast.Tuple):
             d4.fail('%s.__new__' % cname, 'no-key', 'cache key not found', f, f.node)
             continue
@@ -112,12 +117,13 @@ def run(ctx):
             if isinstance(n, ast.Attribute) and src(n.value) == 'thermo' and isinstance(n.ctx, ast.Load):
                 reads.add(src(n))
         miss = sorted(r for r in reads if r not in kel)
-        if 'chemicals' in kel and not miss:
+        if f.params[1] in kel and not miss:
             d4.ok('%s.__new__' % cname, 'key %s covers chemicals and every thermo attribute read (%s)' % (sorted(kel), sorted(reads)), f, key[0])
         else:
             d4.fail('%s.__new__' % cname, 'key-misses', 'the instance cache key does not contain %s' % (miss or ['chemicals']), f, key[0])
         # the key is normalised the same way as what is stored under it
-        pre = [n for n in walk_no_nested(f.node) if isinstance(n, ast.Assign) and src(n.targets[0]) == 'chemicals' and src(n.value) == 'tuple(chemicals)']
+        cp = f.params[1]
+        pre = [n for n in walk_no_nested(f.node) if isinstance(n, ast.Assign) and src(n.targets[0]) == cp and src(n.value) == 'tuple(%s)' % cp]
         if pre and pre[0].lineno < key[0].lineno:
             d4.ok('%s.__new__' % cname, 'chemicals are normalised to a tuple before the key is built', f, pre[0])
         else:
@@ -129,7 +135,7 @@ def homogeneity(ctx, d2, prog, f, cname, mname, rel):
 
     def decide(t, st):
         s = src(t)
-        if s in ('N == 0', 'N == 1'):
+        if isinstance(t, ast.Compare) and isinstance(t.ops[0], ast.Eq) and isinstance(t.comparators[0], ast.Constant) and t.comparators[0].value in (0, 1):
             return False
         if 'conversion is None' in s:
             return True
@@ -141,11 +147,20 @@ def homogeneity(ctx, d2, prog, f, cname, mname, rel):
     if not ps:
         raise AnalysisError('%s: no non-reactive path' % cons)
     p = ps[0]
-    args = p.tup.get('args')
-    fa = [e for e in p.events if e.kind == 'assign' and e.target == 'f']
+    # the solver call: first argument = residual function, one positional/keyword argument = the args tuple
+    sc = [e for e in p.events if e.kind == 'call' and e.target in ('flx.aitken_secant', 'flx.IQ_interpolation')]
+    args = fa = None
+    if sc:
+        call = sc[0].node
+        fn_txt = sc[0].value[0].pretty() if sc[0].value else ''
+        for a in list(call.args) + [k.value for k in call.keywords]:
+            if isinstance(a, ast.Name) and a.id in p.tup and len(p.tup[a.id]) >= 3:
+                args = p.tup[a.id]
+        if fn_txt.startswith('self._'):
+            fa = [sc[0]]
+            resid_name = fn_txt.split('.')[-1]
     if not args or not fa:
         raise AnalysisError('%s: args / residual function not found' % cons)
-    resid_name = src(fa[-1].stmt.value).split('.')[-1]
     g = prog.method(cname, resid_name, rel=rel)
     params = g.params[2:]      # self, unknown, *args
     if len(params) != len(args):
@@ -162,8 +177,9 @@ def homogeneity(ctx, d2, prog, f, cname, mname, rel):
     # the quantity summed in the residual: the value solved into x / y
     yv = None
     for e in gp.events:
-        if e.kind == 'assign' and e.target in ('y_phi', 'x_gamma'):
-            yv = e.value
+        # the quantity handed to the inner composition solve whose result is stored into the composition buffer
+        if e.kind == 'store' and e.target.endswith('[::]') and isinstance(e.stmt.value, ast.Call) and e.stmt.value.args:
+            yv = gp.lin.form(e.stmt.value.args[0])
     if yv is None:
         raise AnalysisError('%s: residual quantity not found' % resid_name)
     total = None
@@ -190,7 +206,7 @@ def homogeneity(ctx, d2, prog, f, cname, mname, rel):
     zdeps = {k_: v_ for k_, v_ in degs.items() if v_ not in (0,) and k_ not in ('P', 'T', 'Psats', 'x', 'y')}
     # degree of the P/T arguments is 0 by construction (they do not mention z)
     if total == 0 and not bad_inner:
-        d2.ok(cons, 'residual 1 - sum(%s) is degree 0 in z: arguments %s' % ('y' if 'y_phi' in env else 'x', {k_: v_ for k_, v_ in degs.items() if k_ not in ('x', 'y')}), g)
+        d2.ok(cons, 'residual 1 - sum(composition) is degree 0 in z: arguments %s' % ({k_: v_ for k_, v_ in degs.items() if k_ not in ('x', 'y')}), g)
     else:
         which = ', '.join('%s (degree %s)' % kv for kv in sorted(zdeps.items(), key=str)) or str(bad_inner)
         d2.fail(cons, 'scale-dependent', 'the residual of %s is not homogeneous of degree 0 in z: it receives %s, so the result changes when z is multiplied by a constant'
